@@ -613,6 +613,15 @@ def flushPending (a : Acc) (s : Nat) (pend : List Msg) : Acc :=
 /-- The participants list is sent on resume unless one was among the queued messages. -/
 def needsParticipants (pend : List Msg) : Bool := pend = [] || !(pend.any isPartUpdate)
 
+/-- `SetClient` + hello reply: a previous connection is told that the session moved on and is closed,
+the new one gets the hello with the same session id. -/
+def resumeAcc (a : Acc) (c s : Nat) (x : Sess) : Acc :=
+  let outs1 : List Out := match x.conn with
+    | some p => [⟨p, Msg.bye "session_resumed", some x.backend⟩]
+    | none => []
+  let h2 := resumeTables a.h c s x
+  { a with h := h2, outs := a.outs ++ outs1 ++ [⟨c, .hello s (userOf h2 s { x with conn := some c, pending := [] }), some x.backend⟩] }
+
 /-- Resume with the private id of session `s` (`none`: an id that does not decode / unknown). -/
 def processResume (a : Acc) (c : Nat) (os : Option Nat) : Acc :=
   if !a.h.connOpen c || (a.h.connSess c).isSome then a else
@@ -623,14 +632,8 @@ def processResume (a : Acc) (c : Nat) (os : Option Nat) : Acc :=
     | none => { a with outs := a.outs ++ [⟨c, .error "no_such_session", none⟩] }
     | some x =>
       if x.kind = .virtual then { a with outs := a.outs ++ [⟨c, .error "no_such_session", none⟩] } else
-      -- SetClient: take over from a previous connection
-      let outs1 : List Out := match x.conn with
-        | some p => [⟨p, Msg.bye "session_resumed", some x.backend⟩]
-        | none => []
-      let h2 := resumeTables a.h c s x
-      let a3 : Acc := { a with h := h2, outs := a.outs ++ outs1 ++ [⟨c, .hello s (userOf h2 s { x with conn := some c, pending := [] }), some x.backend⟩] }
       -- NotifySessionResumed: flush what was queued, then the participants list unless one was queued
-      let a4 := flushPending a3 s x.pending
+      let a4 := flushPending (resumeAcc a c s x) s x.pending
       if needsParticipants x.pending then notifyResumed a4 s else a4
 
 /-- The tables after connection `c` of session `s` dropped (`Hub.processUnregister`). -/
